@@ -22,6 +22,8 @@ pub struct Probes {
     pub c05: bool,
     pub c17_zone: bool,
     pub blocks: bool,
+    /// C15: exhaust memory on a scratch copy; exactly the online free frames are allocatable
+    pub c15_fill: bool,
 }
 
 #[derive(Clone)]
